@@ -382,7 +382,7 @@ def eval_case(rep, case, impl, model, dom, tok_ans=None):
         rep.count("annotate:" + ("emph" if emph else "no-emph"))
         oracle_pair(rep, case, case["minus"], case["plus"], am, ap, toks)
     elif op == "infer":
-        eval_infer(rep, case, impl)
+        eval_infer(rep, case, impl, tok_ans)
 
 
 COSTS = dict(D=2, I=2, P=1)
@@ -430,7 +430,7 @@ def best_cost(x, y):
     return go(0, 0, True)
 
 
-def eval_infer(rep, case, impl):
+def eval_infer(rep, case, impl, dist=None):
     kv = parse_kv(impl)
     minus, plus = case["minus"], case["plus"]
     al = []
@@ -454,6 +454,35 @@ def eval_infer(rep, case, impl):
             len(am) != len(minus) or len(ap) != len(plus):
         rep.violation("infer:pairing-not-monotone", "line alignment does not list every line once in order", replay)
         return
+    # pairing honours the distance: replay the greedy rule of the statement on the implementation's own
+    # distances (`annotate` of each candidate pair): the first not yet used added line within the threshold
+    # (or, for equally long runs, within the naive threshold) is the partner
+    if dist is not None and all((a, b) in dist for a in minus for b in plus):
+        try:
+            mxf, nvf = float(case["max"]), float(case["naive"])
+        except ValueError:
+            mxf = None
+        if mxf is not None:
+            want, pi = [], 0
+            for i_, a in enumerate(minus):
+                hit = None
+                for j_ in range(pi, len(plus)):
+                    d_ = dist[(a, plus[j_])]
+                    if (len(minus) == len(plus) and d_ <= nvf) or d_ <= mxf:
+                        hit = j_
+                        break
+                if hit is not None:
+                    want.append((i_, hit))
+                    pi = hit + 1
+            if want != pairs:
+                missed = [q for q in want if q not in pairs][:1]
+                extra = [q for q in pairs if q not in want][:1]
+                what = ("two lines whose distance is within the threshold, and which the greedy order reaches, are not paired"
+                        if missed else "lines are paired although their distance exceeds the threshold")
+                q = (missed or extra)[0]
+                rep.violation("infer:pairing-ignores-distance" if missed else "infer:pairing-beyond-distance",
+                              what, dict(replay, expected_pairs=want, pair=list(q),
+                                         distance=dist[(minus[q[0]], plus[q[1]])]))
     hm, hp = kv["H"].split(":")
     if hm != "".join("1" if b is not None else "0" for a, b in al if a is not None) or \
             hp != "".join("1" if a is not None else "0" for a, b in al if b is not None):
@@ -509,12 +538,31 @@ def run_cases(ctx, rep, cases):
                     tokidx[key] = len(tokreq)
                     tokreq.append(f"edits.tokenize {hx(c['regex'])} {hx(l)}")
     tokans = ask_parallel(ctx.hook, tokreq)
+    # the implementation's own distance (`annotate`) for every candidate pair of every subhunk: the direct
+    # oracle replays the greedy pairing rule of the property on them
+    pairreq, pairidx = [], {}
+    for c in cases:
+        if c["op"] == "infer":
+            for a in c["minus"]:
+                for b in c["plus"]:
+                    key = (c["regex"], a, b)
+                    if key not in pairidx:
+                        pairidx[key] = len(pairreq)
+                        pairreq.append(f"edits.annotate {hx(c['regex'])} {hx(a)} {hx(b)} {ND} {D} {NI} {I}")
+    pairans = ask_parallel(ctx.hook, pairreq)
     for c, i, m in zip(cases, impl, model):
         if m is None and c["op"] != "align":
             rep.count("domain-skipped:" + c["op"])
         ta = None
         if c["op"] == "annotate":
             ta = [tokans[tokidx[(c["regex"], c["minus"])]], tokans[tokidx[(c["regex"], c["plus"])]]]
+        if c["op"] == "infer":
+            ta = {}
+            for a in c["minus"]:
+                for b in c["plus"]:
+                    ans = pairans[pairidx[(c["regex"], a, b)]]
+                    if ans.startswith("ok"):
+                        ta[(a, b)] = struct.unpack(">d", bytes.fromhex(parse_kv(ans)["D"]))[0]
         try:
             eval_case(rep, c, i, m, dom, ta)
         except Exception as ex:   # an answer the oracle cannot even parse is a failure of the implementation
@@ -563,6 +611,37 @@ def gen_cases(ctx):
         nv = "0.0" if rng.random() < 0.8 else rng.choice(["0.5", "1.0", "0.25"])
         cases.append(dict(op="infer", regex=r, max=mx, naive=nv, minus=minus, plus=plus,
                           mtags=[ND] * len(minus), ptags=[NI] * len(plus)))
+    # whitespace-only interior changes (1x, 3x, 10x blanks) and changes in wide / multi-byte tokens, under
+    # thresholds 0 / 0.05 / 0.6 / 1 and thresholds next to the pair's own distance
+    WIDE = ["日本語", "résumé", "ｗｉｄｅ", "👍👍", "Ωμέγα", "naïveté", "данные", "データ", "x"]
+    for k in range(ctx.n(240, 8000)):
+        words = [rng.choice(["alpha", "beta", "name", "value", "x", "timeout", "42"] + WIDE) for _ in range(rng.randint(2, 5))]
+        sep = rng.choice([" ", " = ", ", "])
+        base = sep.join(words)
+        if k % 2 == 0:
+            n = rng.choice([1, 3, 10, 44])
+            other = base.replace(" ", " " * (n + 1)) if rng.random() < 0.8 else (" " * n).join(words)
+            if rng.random() < 0.3:
+                other = rng.choice(["  ", "\t", ""]) + other + rng.choice(["", " ", "  "])
+        else:
+            w2 = list(words)
+            w2[rng.randrange(len(w2))] = rng.choice(WIDE)
+            if rng.random() < 0.4:
+                w2.insert(rng.randrange(len(w2) + 1), rng.choice(WIDE))
+            other = sep.join(w2)
+        mx = rng.choice(["0", "0.05", "0.6", "1", "0", "0.%02d" % rng.randint(1, 99)])
+        minus, plus = [base + "\n"], [other + "\n"]
+        if rng.random() < 0.4:      # more lines around, equal or unequal run lengths
+            extra = finish_line(rng, gen_tokens(rng))
+            if rng.random() < 0.5:
+                plus.insert(0, extra)
+            else:
+                minus.append(extra)
+                if rng.random() < 0.5:
+                    plus.append(finish_line(rng, gen_tokens(rng)))
+        cases.append(dict(op="infer", regex=rng.choice([r"\w+", r"\w+", r"\S+"]), max=mx,
+                          naive=rng.choice(["0.0", "0.0", "0.5"]), minus=minus, plus=plus,
+                          mtags=[ND] * len(minus), ptags=[NI] * len(plus)))
     # per-line noop tags differ (what the API allows; delta itself passes one style per side)
     for _ in range(ctx.n(100, 2000)):
         minus, plus = gen_subhunk(rng)
@@ -599,6 +678,9 @@ CORPUS = [
     dict(op="infer", regex=r"\w+", max="0", naive="0.0", minus=["a b\n"], plus=["a  b\n"], mtags=[ND], ptags=[NI]),
     # rejected candidates before a pair; per-line no-op tags
     dict(op="infer", regex=r"\w+", max="0.6", naive="0.0", minus=["x y\n"], plus=["zzz\n", "x w\n"], mtags=[ND], ptags=[NI, 5]),
+    # interior-whitespace-only change at threshold 0, and a 4x longer whitespace-only change at 0.6
+    dict(op="infer", regex=r"\w+", max="0", naive="0.0", minus=["alpha = beta\n"], plus=["alpha   =   beta\n"], mtags=[ND], ptags=[NI]),
+    dict(op="infer", regex=r"\w+", max="0.6", naive="0.0", minus=["name value\n"], plus=["name" + " " * 44 + "value\n"], mtags=[ND], ptags=[NI]),
     # delta's own examples (edits.rs tests)
     dict(op="annotate", regex=r"\w+", minus="aaa bbb\n", plus="aaa ccc\n"),
     dict(op="annotate", regex=r"\w+", minus="fn coalesce_edits<'a, EditOperation>(\n", plus="fn coalesce_edits<'a, 'b, EditOperation>(\n"),
